@@ -82,6 +82,9 @@ IntArg(C, s, a, def) ==
               ELSE IF HasVarDef(C, v.name) /\ VarDef(C, v.name).hasDefault THEN VarDef(C, v.name).default.n
               ELSE def          \* variable without a value: the argument's default applies
        ELSE def
+\* rule.arg is the argument's name in the SCHEMA (what a document writes: after the object's rename_args rule or an
+\* explicit name on the argument -- `page_size`, `topN`, `perPage` in schemas/limits.json), never the Rust parameter
+\* the rule text mentions: the value the document gives under that name is the one the rule multiplies with.
 ApplyRule(C, rule, s, child) ==
   CASE rule.k = "default" -> 1 + child
     [] rule.k = "const"   -> rule.add
@@ -339,6 +342,32 @@ Visits_asCodedFast(C) == VisitsWith(C, CostTbl(C), FALSE)      \* the same numbe
 Visits_ideal(C)       == VisitsWith(C, ZeroTbl(C), TRUE)       \* every fragment body is walked once per walker
 
 WithinBound(v, b) == \A i \in 1..Len(v) : v[i] <= b
+
+(* NoFragmentCycles (validation/rules/no_fragment_cycles.rs).  exit_document starts CycleDetector::detect_from at every fragment   *)
+(* definition not yet in `visited`; detect_from(f) puts f into `visited`, looks at every spread written inside f and recurses into *)
+(* the spread fragment unless it is on the current path (a cycle: an error) or already in `visited`.  So detect_from is called     *)
+(* once per name -- defined, or spread inside a fragment definition -- whatever the order of the hash maps and whatever the        *)
+(* operations do: the search is linear in the document.                                                                            *)
+CycleNames(C) == FragNames(C) \cup UNION {SpreadNames(C.doc.frags[i].sels, 1) : i \in 1..Len(C.doc.frags)}
+Visits_cycles(C) == Cardinality(CycleNames(C))
+\* The `visited` guard is what keeps it so.  A search that only stops on the current path walks every path of the spread graph:
+\* CyclePaths(C)[f] = calls of detect_from below (and including) one start at f, for documents without cycles, as a table built
+\* bottom-up like CostTbl.  Every fragment that no other fragment spreads is a start, so the unguarded search makes at least
+\* Visits_cyclesNoGuard(C) calls in any order of the hash maps.
+RECURSIVE SpreadSeq(_, _)
+SpreadSeq(sels, i) ==                 \* the spreads written in a selection list, in order, with repetitions
+  IF i > Len(sels) THEN <<>>
+  ELSE (IF sels[i].k = "spread" THEN <<sels[i].name>> ELSE SpreadSeq(sels[i].sels, 1)) \o SpreadSeq(sels, i + 1)
+RECURSIVE SumPaths(_, _, _), CyclePathsFrom(_, _, _)
+SumPaths(tbl, names, i) == IF i > Len(names) THEN 0 ELSE Sat((IF names[i] \in DOMAIN tbl THEN tbl[names[i]] ELSE 1) + SumPaths(tbl, names, i + 1))
+CyclePathsFrom(C, tbl, fuel) ==
+  LET ready == {n \in FragNames(C) \ DOMAIN tbl : (SpreadNames(Frag(C, n).sels, 1) \cap FragNames(C)) \subseteq DOMAIN tbl} IN
+  IF fuel = 0 \/ ready = {} THEN tbl
+  ELSE LET nm == CHOOSE x \in ready : TRUE
+           w  == Sat(1 + SumPaths(tbl, SpreadSeq(Frag(C, nm).sels, 1), 1))
+       IN CyclePathsFrom(C, IF DOMAIN tbl = {} THEN nm :> w ELSE tbl @@ (nm :> w), fuel - 1)
+CyclePaths(C) == CyclePathsFrom(C, EmptyTbl, Len(C.doc.frags))
+Visits_cyclesNoGuard(C) == LET t == CyclePaths(C) IN MaxSet({t[f] : f \in DOMAIN t})
 \* trigger of DevNoMemo: some fragment is expanded more than once when the operations are walked
 \* ("a fragment is spread at least twice along a chain")
 TriggerNoMemo(C) == SumWork(C, OpLists(C), 1, CostTbl(C)).spr > Len(C.doc.frags)
@@ -464,9 +493,20 @@ TwoDirs == <<[name |-> "skip", val |-> [k |-> "bool", v |-> FALSE]], [name |-> "
 DirFirst(n) == [ops |-> <<Op("", <<[Fld("n", "x", <<>>) EXCEPT !.dirs = TwoDirs], Spr(FN(1))>>)>>, frags |-> FanOut(n).frags]
 DirLast(n)  == [ops |-> <<Op("", <<Spr(FN(1))>>)>>,
                 frags |-> [i \in 1..n |-> IF i < n THEN FanOut(n).frags[i] ELSE FragDef(FN(n), "Query", <<[Fld("n", "", <<>>) EXCEPT !.dirs = TwoDirs]>>)]]
+\* "Fibonacci" DAG: f_i on Query { ...f_{i+1} ...f_{i+2} }, f_{n-1} { ...f_n }, f_n { n }: Fib(n) paths lead from f_1 to f_n, every
+\* fragment below f_1 is shared.  FibDag: spread from the operation (valid); FibFree: no operation spreads the fragments, so the
+\* operation-rooted walkers never enter them -- only the passes over the definitions as written and the rules' own searches
+\* (NoFragmentCycles, NoUnusedFragments) see the DAG; FibTail: the operation spreads the leaf f_n only, f_1 .. f_{n-1} stay unreferenced
+FibFrags(n) == [i \in 1..n |-> FragDef(FN(i), "Query", IF i = n THEN <<Fld("n", "", <<>>)>>
+                                                     ELSE IF i = n - 1 THEN <<Spr(FN(n))>> ELSE <<Spr(FN(i + 1)), Spr(FN(i + 2))>>)]
+FibDag(n)  == [ops |-> <<Op("", <<Spr(FN(1))>>)>>, frags |-> FibFrags(n)]
+FibFree(n) == [ops |-> <<Op("", <<Fld("n", "", <<>>)>>)>>, frags |-> FibFrags(n)]
+FibTail(n) == [ops |-> <<Op("", <<Spr(FN(n))>>)>>, frags |-> FibFrags(n)]
+FibFamilies == {"fibdag", "fibfree", "fibtail"}
 Families == {"fanout", "wide", "deepinline", "manyops"}
 Family(name, n) == CASE name = "fanout" -> FanOut(n) [] name = "wide" -> Wide(n) [] name = "deepinline" -> DeepInline(n) [] name = "manyops" -> ManyOps(n)
                      [] name = "fanoutops" -> FanOutOps(n) [] name = "dirfirst" -> DirFirst(n) [] name = "dirlast" -> DirLast(n)
+                     [] name = "fibdag" -> FibDag(n) [] name = "fibfree" -> FibFree(n) [] name = "fibtail" -> FibTail(n)
 \* a context for work counting needs only the document
 WorkCtx(doc) == [doc |-> doc, op |-> doc.ops[1]]
 =============================================================================
